@@ -736,6 +736,12 @@ func (fr *Frame) execInstr(b *ssa.BasicBlock, in ssa.Instruction, st *State, rea
 		} else if v.S == "Iface" && ns == "Int" {
 			v.T = "(ite (= (i_tag " + v.T + ") 0) 0 (ite (= (i_tag " + v.T + ") 999999) (i_pl " + v.T + ") " + fc.B.Fresh("errconv", "Int") + "))"
 		}
+		if v.Fn == nil && v.S == "Iface" {
+			if impl := fc.closedImpl(x.X.Type()); impl != nil {
+				// closed world: remember the concrete value behind the interface (used by fmt models)
+				v.Fn = &FnVal{Special: "dyn", Data: []Val{fc.mkVal(impl, fc.B.Unbox(impl, "(i_pl "+v.T+")"))}}
+			}
+		}
 		v.Typ = x.Type()
 		v.S = ns
 		fr.vals[x] = v
